@@ -176,20 +176,58 @@ def htmlHandler : PyExc → Raised
   | _ => .parseError (-1) (-1)
 
 /-- a chunk handed out by `source.read()` -/
-inductive HtmlRead where
-  | text (items : List (Item HtmlCb))   -- a `str`: fed to the tokenizer
+inductive HtmlReadG (cb : Type) where
+  | text (items : List (Item cb))       -- a `str`: fed to the tokenizer
   | bytes                               -- not a `str`: `UnicodeError("source returned bytes, but no encoding specified")`
   | fail (e : PyExc)                    -- `read()` raised (e.g. the codec reader)
   deriving Repr
 
-def HtmlRead.toRead : HtmlRead → Read HtmlCb
+abbrev HtmlRead := HtmlReadG HtmlCb
+
+def HtmlReadG.toRead {cb : Type} : HtmlReadG cb → Read cb
   | .text l => .items l
   | .bytes => .fail unicodeError
   | .fail e => .fail e
 
 /-- iterating `HTMLParser(source)` -/
 def htmlParse (env : Env) (reads : List HtmlRead) (close : List (Item HtmlCb)) : Stream × Option Raised :=
-  parse (htmlLayer env) htmlHandler [] (reads.map HtmlRead.toRead) close
+  parse (htmlLayer env) htmlHandler [] (reads.map HtmlReadG.toRead) close
+
+/-! ### with positions
+
+Every `_enqueue` of one callback stamps `self._getpos()` (`html.parser`'s `getpos()` does not move
+during a callback); the closers at end of input re-use the local `pos` of `_generate`, i.e. the
+position of the last event handed on. -/
+
+structure HStP where
+  openTags : List Str
+  last : Option Pos       -- `pos` of `_generate`: unbound until the first event
+
+def htmlStepP (env : Env) (k : HStP) (c : HtmlCb × Pos) : Except PyExc (HStP × PStream) :=
+  match htmlStep env k.openTags c.1 with
+  | .error e => .error e
+  | .ok (o, evs) =>
+    .ok (⟨o, match evs with
+            | [] => k.last
+            | _ :: _ => some c.2⟩, evs.map fun e => (e, c.2))
+
+def closersP (k : HStP) : PStream :=
+  k.openTags.map fun t => (.end_ (mkQName t), k.last.getD (-1, -1))
+
+def htmlLayerP (env : Env) : LayerG HStP (HtmlCb × Pos) PEvent where
+  step := htmlStepP env
+  finish := closersP
+
+abbrev HtmlReadP := HtmlReadG (HtmlCb × Pos)
+
+def htmlParseP (env : Env) (reads : List HtmlReadP) (close : List (Item (HtmlCb × Pos))) :
+    PStream × Option Raised :=
+  parseP (htmlLayerP env) htmlHandler ⟨[], none⟩ (reads.map HtmlReadG.toRead) close
+
+def HtmlReadG.map {α β : Type} (g : α → β) : HtmlReadG α → HtmlReadG β
+  | .text l => .text (l.map (Item.map g))
+  | .bytes => .bytes
+  | .fail e => .fail e
 
 /-- the environment of the real code: the generated void table (ASCII `lower` is used by the driver) -/
 def asciiLower (s : Str) : Str := s.map Str.lower
